@@ -147,6 +147,9 @@ def plan(prop, tier):
                 if n["kind"].startswith("puppet"):
                     n["late"] = True
             fams.append(("flatten2_lateup", scen.with_bounds(g, "flatten", **lb), None))
+            # C17 only: sinks of a shared source that make each other act from inside their handlers
+            fams.append(("share2_cross", scen.with_bounds(scen.share_g(), "share", sinks=["probe", "probe"], maxData=1,
+                                                         maxTop=4, maxPull=1, allowFail=False, burst=False, cross=True), None))
             g = scen.share_g()
             g["nodes"][0]["late"] = True
             fams.append(("share2_lateup", scen.with_bounds(g, "share", sinks=["probe", "probe"], **lb), None))
